@@ -252,6 +252,10 @@ def run_kernel(drv, case) -> Outcome:
                      f"sample_state (eps={eps}, eps'={epsp}) produced {impossible}, impossible under {exp_dist}")
         for msg in mc.six_sigma_miss(dict(counts), exp_dist, shots):
             out.warnings.append(f"sample_state with detection errors outside 6 sigma (seed {case.get('npseed')}): {msg}")
+        hard = mc.binom_tail_miss(dict(counts), exp_dist, shots)
+        if hard:
+            out.fail("detection-error-rates", f"sample_state (eps={eps}, eps'={epsp}) counts cannot come from "
+                     f"independent flips at the configured rates: {hard[:3]}")
         # the V2 route: QutipState.sample with the same rates
         from pulser_simulation.qutip_state import QutipState
 
@@ -268,6 +272,10 @@ def run_kernel(drv, case) -> Outcome:
                      f"QutipState.sample (p_false_pos={eps}, p_false_neg={epsp}) produced {impossible}, impossible under {exp_dist}")
         for msg in mc.six_sigma_miss(dict(counts2), exp_dist, shots):
             out.warnings.append(f"QutipState.sample with detection errors outside 6 sigma: {msg}")
+        hard = mc.binom_tail_miss(dict(counts2), exp_dist, shots)
+        if hard:
+            out.fail("detection-error-rates", f"QutipState.sample (p_false_pos={eps}, p_false_neg={epsp}) counts "
+                     f"cannot come from independent flips at the configured rates: {hard[:3]}")
     return out
 
 
